@@ -15,9 +15,10 @@ import Driver.UpdateOps
 import Driver.GenerateOps
 import Driver.TestRunOps
 import Driver.EnvOps
+import Driver.UpdateRunOps
 /-! Line-protocol driver: one operation per input line, one canonical line out. -/
 namespace Driver
-open Driver.CramOps Driver.MarkdownOps Driver.EscOps Driver.RulesOps Driver.YamlOps Driver.TplOps Driver.PrettyOps Driver.GrammarOps Driver.UpdateOps Driver.GenerateOps Driver.TestRunOps Driver.EnvOps
+open Driver.CramOps Driver.MarkdownOps Driver.EscOps Driver.RulesOps Driver.YamlOps Driver.TplOps Driver.PrettyOps Driver.GrammarOps Driver.UpdateOps Driver.GenerateOps Driver.TestRunOps Driver.EnvOps Driver.UpdateRunOps
 
 def step (line : String) : String :=
   match line.trimAscii.toString.splitOn " " with
@@ -72,6 +73,7 @@ def step (line : String) : String :=
   | "noop" :: args => opNoop args
   | "testdoc" :: args => opTestDoc args
   | "lossy" :: args => opLossy args
+  | "upddoc" :: args => opUpdDoc args
   | _ => "bad-op"
 
 partial def loop (h : IO.FS.Stream) (out : IO.FS.Stream) : IO Unit := do
